@@ -1202,6 +1202,28 @@ class Symbolic(
     """Returns the symbolic parent for children."""
     return self
 
+  def _copy_if_placed_elsewhere(self, key: Union[str, int], value: Any) -> Any:
+    """Clones a symbolic dict/list that lives at another location of a tree.
+
+    The copy is made before the value is applied to the field it is written to,
+    as applying re-specifies a dict or list (value spec, partial flag) in place.
+
+    Args:
+      key: Key under which the value is to be stored in this container.
+      value: The value to store.
+
+    Returns:
+      A clone of the value if it is the child of another container (or sits at
+      another key of this one), otherwise the value itself.
+    """
+    if (isinstance(value, (Symbolic.DictType, Symbolic.ListType))
+        and value.sym_parent is not None):
+      root_path = utils.KeyPath(key, self.sym_path)
+      if (value.sym_parent is not self._sym_parent_for_children()
+          or root_path != value.sym_path):
+        return value.clone()
+    return value
+
   def _set_item_of_current_tree(
       self, path: utils.KeyPath, value: Any
   ) -> Optional[FieldUpdate]:
